@@ -90,8 +90,17 @@ def aerostruct_problem(surface, vals=None, compressible=False, rotational=False)
         prob.model.connect(name + ".local_stiff_transformed", pt + ".coupled." + name + ".local_stiff_transformed")
         prob.model.connect(name + ".nodes", pt + ".coupled." + name + ".nodes")
         prob.model.connect(name + ".mesh", pt + ".coupled." + name + ".mesh")
-        prob.model.connect(name + ".radius", com + ".radius")
-        prob.model.connect(name + ".thickness", com + ".thickness")
+        if sf.get("fem_model_type", "tube") == "wingbox":
+            # wired as in tests/integration_tests/test_aerostruct_wingbox_analysis.py
+            for q in ("Qz", "J", "A_enc", "htop", "hbottom", "hfront", "hrear", "spar_thickness"):
+                prob.model.connect(name + "." + q, com + "." + q)
+            if sf.get("struct_weight_relief"):
+                prob.model.connect(name + ".element_mass", pt + ".coupled." + name + ".element_mass")
+            if sf.get("distributed_fuel_weight"):
+                prob.model.connect("load_factor", pt + ".coupled.load_factor")
+        else:
+            prob.model.connect(name + ".radius", com + ".radius")
+            prob.model.connect(name + ".thickness", com + ".thickness")
         prob.model.connect(name + ".nodes", com + ".nodes")
         prob.model.connect(name + ".cg_location", pt + ".total_perf." + name + "_cg_location")
         prob.model.connect(name + ".structural_mass", pt + ".total_perf." + name + "_structural_mass")
